@@ -46,9 +46,9 @@ func obsJSON(o *Outcome) map[string]any {
 
 // runBatch deploys the contracts of all scenarios (one block), then runs their transactions in blocks of the given
 // sizes (in the given order) and records tx / block events.
-func runBatch(t *testing.T, w *World, res *vh.Result, tr, steps *vh.Trace, scs []*Scenario, r *rand.Rand, traceEvery int) {
+func runBatch(t *testing.T, w *World, res *vh.Result, tr, steps *vh.Trace, scs []*Scenario, r *rand.Rand, traceEvery int) error {
 	if err := w.Prepare(scs); err != nil {
-		t.Fatalf("prepare: %v", err)
+		return fmt.Errorf("prepare: %w", err)
 	}
 	for i := 0; i < len(scs); {
 		n := 1 + r.Intn(4)
@@ -58,25 +58,21 @@ func runBatch(t *testing.T, w *World, res *vh.Result, tr, steps *vh.Trace, scs [
 		blk := scs[i : i+n]
 		i += n
 		before := w.Snapshot()
-		var paniced any
+		var (
+			paniced any
+			berr    error
+		)
 		func() {
 			defer func() { paniced = recover() }()
-			w.RunBlock(blk, func() {
-				// code -> spec: statement-level trace of the same transaction in a test VM on the pre-block state
-				for _, s := range blk {
-					if traceEvery > 0 && r.Intn(traceEvery) == 0 {
-						if err := w.TraceRun(s, steps); err != nil {
-							t.Fatalf("trace run: %v", err)
-						}
-						res.Inc("step_traces", 1)
-					}
-				}
-			})
+			berr = w.RunBlock(blk)
 		}()
 		if paniced != nil {
 			res.Violate(map[string]any{"kind": "panic", "where": "AddBlock"},
 				fmt.Sprintf("Go panic escaped block processing: %v", paniced), map[string]any{"trees": blk})
-			t.Fatalf("panic in block processing: %v", paniced)
+			return fmt.Errorf("panic in block processing: %v", paniced)
+		}
+		if berr != nil {
+			return fmt.Errorf("block of scenario transactions refused: %w", berr)
 		}
 		var fees int64
 		for pos, s := range blk {
@@ -113,7 +109,18 @@ func runBatch(t *testing.T, w *World, res *vh.Result, tr, steps *vh.Trace, scs [
 		after := w.Snapshot()
 		tr.Emit(map[string]any{"event": "block", "nset": after.Nset, "nset_disk": after.NsetDisk, "sink": after.Sink,
 			"payer_delta": after.Payer - before.Payer, "fees": fees, "ntx": len(blk)})
+		// code -> spec: statement-level trace of the same transactions in a test VM (after the block has been judged,
+		// on the post-block state: the step validator starts from whatever the test VM shows at the beginning)
+		for _, s := range blk {
+			if traceEvery > 0 && r.Intn(traceEvery) == 0 {
+				if err := w.TraceRun(s, steps); err != nil {
+					return fmt.Errorf("trace run: %w", err)
+				}
+				res.Inc("step_traces", 1)
+			}
+		}
 	}
+	return nil
 }
 
 func TestDriver(t *testing.T) {
@@ -151,7 +158,13 @@ func TestDriver(t *testing.T) {
 		for k := i; k < j; k++ {
 			scs = append(scs, &Scenario{Name: fmt.Sprintf("t%d", k), Root: cases[k].Tree, Src: cases[k].Src, Pred: cases[k].Pred})
 		}
-		runBatch(t, w, res, tr, steps, scs, r, traceEvery)
+		if err := runBatch(t, w, res, tr, steps, scs, r, traceEvery); err != nil {
+			// stop here, keep what was recorded: the runner judges the traces and reports "inconclusive" only if
+			// nothing recorded so far is a violation
+			t.Logf("driver stopped: %v", err)
+			res.Stats["aborted"] = err.Error()
+			break
+		}
 		inWorld += j - i
 	}
 	res.Inc("trees", len(cases))
